@@ -365,7 +365,7 @@ class RealFP(SymFP):
         a = z3.simplify(a); b = z3.simplify(b)
         cb = const_frac(b)
         if cb is None: s.div_obl.append(b != 0)
-        elif cb == 0: s.div_obl.append(z3.BoolVal(False)); return NAN
+        elif cb == 0: s.div_obl.append(False); raise Abort('division by a literal zero (inf/NaN in the real code): the path ends here with a failed obligation')
         ca = const_frac(a)
         if ca is not None and ca == 0: return RV(0)
         return z3.simplify(a / b)
